@@ -23,7 +23,7 @@ def r_matchvisitors(root):
     made = []
     def mk(kind):
         def ctor(to_match=None, rule_name="", root=False, ignore_case=None, multiline=None, str_repr=None, re_flags=None, **kw):
-            o = {".kind": kind, ".to_match": to_match, ".ignore_case": ignore_case, ".str_repr": str_repr, ".compiled": False, ".rule_name": rule_name}
+            o = {".kind": kind, ".to_match": to_match, ".ignore_case": ignore_case, ".str_repr": str_repr, ".compiled": False, ".rule_name": rule_name, ".re_flags": re_flags, ".multiline": multiline}
             def compile_():
                 if kind == "RegExMatch":
                     try: re.compile(to_match)
@@ -103,6 +103,9 @@ def r_matchvisitors(root):
             k, v = visit(vr, self_, node, ["/%s/" % pat])
             if valid:
                 ok = k == "ret" and isinstance(v, dict) and v.get(".kind") == "RegExMatch" and v.get(".to_match") == pat and v.get(".compiled") and v.get(".ignore_case") == ic
+                fl = v.get(".re_flags") if isinstance(v, dict) else None
+                okm = not (k == "ret" and isinstance(v, dict) and v.get(".kind") == "RegExMatch") or ((fl is None or (isinstance(fl, int) and bool(fl & re.MULTILINE))) and v.get(".multiline") in (None, True))
+                rep(("C22", "C01"), "C22.m", W2, "regex /%s/ with ignore_case %s keeps multi-line matching" % (pat, ic), okm, "the grammar regex /%s/ under ignore_case=%s is built with re_flags=%r multiline=%r; documented: Arpeggio's default flags (re.MULTILINE: ^ and $ match at line ends - a Comment rule /\\/\\/.*?$/ depends on it), whatever ignore_case is" % (pat, ic, fl, v.get(".multiline") if isinstance(v, dict) else None), witness="Comment: /\\/\\/.*?$/; with ignore_case=True and a comment that is not on the last line")
                 rep(("C20", "C01"), "C20.d", W2, "regex /%s/ with ignore_case %s" % (pat, ic), ok, "the grammar regex /%s/ under ignore_case=%s becomes %s; documented: a compiled RegExMatch of exactly that pattern with the meta-model's ignore_case" % (pat, ic, describe(k, v)))
             else:
                 ok = k == "raise" and v.cls == "TextXSyntaxError"
